@@ -20,7 +20,7 @@ RULE = ("full product: class {BaseSamples,Samples,SMCSamples} x source ns x targ
         "{float32,float64} x requested dtype {None,'float32','float64', native object of the target} x field subset "
         "{none, all, all with a given evidence, L+pi, q only} x route {to_namespace, to_numpy, from_samples(xp=), sample_posterior(xp=)}; dtype helpers "
         "over 14 spellings x 3 namespaces; sampler populations (initial, every stored, restored, final) for requested dtype x "
-        "namespace x sampler (fresh, resumed, resumed by a sampler asked for the other precision - from the first and from the last checkpoint -, and the population handed back by the restore call) x {wide prior, tight prior whose rejected proposal draws make the initial population a concatenation of several batches}; JAX sources with JAX's default 64-bit-disabled configuration (fresh interpreter) into torch/numpy with a float64 request; zuko/flowjax outputs into Samples(xp=ns). non-trivial = cross-namespace or dtype-changing case")
+        "namespace x sampler (fresh, resumed, resumed by a sampler asked for the other precision - from the first and from the last checkpoint -, and the population handed back by the restore call) x {wide prior, tight prior whose rejected proposal draws make the initial population a concatenation of several batches}; JAX sources with JAX's default 64-bit-disabled configuration (fresh interpreter) into torch/numpy with a float64 request; zuko/flowjax outputs into Samples(xp=ns); spellings without a width (float, double, single, half, builtin float) through resolve_dtype / convert_dtype / BaseSamples against the namespace's own reading. non-trivial = cross-namespace or dtype-changing case")
 ASSUMPTIONS = [
     "values 0.1*(i+1)+j style floats that are not exactly representable in float32, so that a silent narrowing changes values",
     "stub kernels for the sampler-population part",
@@ -269,6 +269,37 @@ def run_helpers(_):
                         r.violation(f"C15/helpers/convert_dtype/wrong-dtype/{ns}->{tgt}", {"spelling": repr(sp), "got": str(z.dtype)}, c2)
                 except Exception as e:
                     r.violation(f"C15/helpers/convert_dtype-raises/{ns}->{tgt}/{type(e).__name__}", {"spelling": repr(sp), "err": repr(e)[:160]}, c2)
+    # spellings without a width: what they mean is the namespace's own business ("float" is float64 for NumPy and JAX with
+    # x64, float32 for torch); reference = the namespace's own reading, not aspire's name helper
+    from aspire.samples import BaseSamples
+
+    unsized = {
+        "numpy": ["float", "double", "single", "half", "Float", "np.float", float],
+        "jax": ["float", "double", "single", "half", float],
+        "torch": ["float", "double", "half"],
+    }
+    for ns in NS:
+        xp = get_xp(ns)
+        for sp in unsized[ns]:
+            if ns == "torch":
+                ref = str(getattr(torch, sp)).replace("torch.", "")
+            else:
+                ref = np.dtype(sp.split(".")[-1].lower() if isinstance(sp, str) else sp).name
+            routes = {
+                "resolve_dtype": lambda: xp.zeros(2, dtype=U.resolve_dtype(sp, xp)).dtype,
+                "convert_dtype": lambda: xp.zeros(2, dtype=U.convert_dtype(sp, xp)).dtype,
+                "BaseSamples": lambda: BaseSamples(x=xp.asarray(np.ones((2, 2)) + 1e-12), xp=xp, dtype=sp, parameters=["a", "b"]).x.dtype,
+            }
+            for route, fn in routes.items():
+                c3 = {"helper": "unsized-spelling", "ns": ns, "spelling": repr(sp), "route": route}
+                r.case(explorer.digest(c3), nontrivial=True)
+                try:
+                    got = str(fn()).replace("torch.", "")
+                except Exception as e:  # refusing a spelling is legitimate
+                    r.count(f"unsized-spelling-refused:{ns}:{sp!r}:{route}:{type(e).__name__}")
+                    continue
+                if got != ref:
+                    r.violation(f"C15/helpers/unsized-spelling/{ns}/{route}", {"spelling": repr(sp), "got": got, "namespace_reads_it_as": ref}, c3)
     r.sample({"helper": "convert_dtype", "ns": "torch", "tgt": "jax", "spelling": "torch.float64"})
     return r.dump()
 
